@@ -362,3 +362,325 @@ theorem runs_data (t : APath) (c : Name) : ∀ (ds : List (List Name × β)) (K 
         · exact absurd hpth.2 (by simp)
 
 end FontSave
+
+namespace FontSave
+open AbsFS
+open Path (Comp)
+
+variable {β : Type}
+
+/-! ### the whole plan -/
+
+def topNames : List Name :=
+  ["metainfo.plist", "fontinfo.plist", "lib.plist", "groups.plist", "kerning.plist", "features.fea",
+   "layercontents.plist"].map String.toList
+
+def dataN : Name := "data".toList
+def imagesN' : Name := "images".toList
+
+/-- names a layer directory must not have: the top-level files and the two store directories -/
+def reservedNames : List Name := topNames ++ [dataN, imagesN']
+
+def lname (l : ALayer) : Name := (namesOf (Path.parse l.dir)).headD []
+def gname (e : AEntry) : Name := (namesOf (Path.parse e.file)).headD []
+
+/-- A font whose plan cannot fail for reasons of its own: every part serialises, every relative path is ONE normal
+    component (layer directories, glif files, image keys), layer directories are pairwise different and none is
+    called like a top-level file or store directory, no data key lies on the way to another one. -/
+structure WellPlanned (f : AFont β) : Prop where
+  infoOk : f.info.isEmpty = true ∨ f.info.serialisable = true
+  objLibs : (dumpObjectLibs f.info.guides).isSome = true
+  layerDir : ∀ l ∈ f.layers, namesOf (Path.parse l.dir) = [lname l] ∧ lname l ∉ reservedNames
+  layersDistinct : f.layers.Pairwise fun a b => lname a ≠ lname b
+  glyphs : ∀ l ∈ f.layers, ∀ e ∈ l.entries,
+    namesOf (Path.parse e.file) = [gname e] ∧ ∃ g, e.glyph = some g ∧ g.encodable = true
+  dataKeys : ((f.data.items.map (·.1)).map namesOf).Pairwise NonNestedNames ∧
+    ∀ k ∈ f.data.items.map (·.1), namesOf k ≠ []
+  imageKeys : ∀ k ∈ f.images.items.map (·.1), ∃ g, namesOf k = [g]
+
+def headN (cfg : Cfg β) (f : AFont β) (t : APath) : List (NEff β) :=
+  [topN t "metainfo.plist" (cfg.render (.metainfo f.metaTok))] ++
+  planFontinfoN cfg t f.info ++
+  planLibN cfg t f ++
+  planOptN t "groups.plist" f.groups (cfg.render (.groups f.groups)) ++
+  planOptN t "kerning.plist" f.kerning (cfg.render (.kerning f.kerning)) ++
+  planOptN t "features.fea" f.features (cfg.render (.features f.features)) ++
+  [topN t "layercontents.plist" (cfg.render (.layercontents (f.layers.map fun l => (l.name, l.dir))))]
+
+theorem planRestN_split (cfg : Cfg β) (f : AFont β) (d i : List (Path.P × β)) (t : APath) :
+    planRestN cfg f d i t = headN cfg f t ++ f.layers.flatMap (planLayerN cfg t) ++ d.flatMap (planDataItemN t) ++
+      planImagesN t i := rfl
+
+theorem headN_shape (cfg : Cfg β) (f : AFont β) (t : APath) (hw : WellPlanned f) :
+    ∀ e ∈ headN cfg f t, ∃ c b, e = NEff.write (t ++ [c]) b ∧ c ∈ topNames := by
+  have top : ∀ (name : String) (b : β), name.toList ∈ topNames →
+      ∃ c b', topN t name b = NEff.write (t ++ [c]) b' ∧ c ∈ topNames :=
+    fun name b h => ⟨name.toList, b, rfl, h⟩
+  intro e he
+  unfold headN at he
+  simp only [List.mem_append, List.mem_singleton] at he
+  rcases he with (((((he | he) | he) | he) | he) | he) | he
+  · subst he; exact top _ _ (by decide)
+  · unfold planFontinfoN at he
+    rcases hw.infoOk with h | h
+    · simp [h] at he
+    · by_cases h0 : f.info.isEmpty = true
+      · simp [h0] at he
+      · simp only [h0, h, if_true, Bool.false_eq_true, if_false, List.mem_singleton] at he
+        subst he; exact top _ _ (by decide)
+  · unfold planLibN at he
+    cases hd : dumpObjectLibs f.info.guides with
+    | none => have := hw.objLibs; simp [hd] at this
+    | some ol =>
+      simp only [hd] at he
+      split at he
+      · cases he
+      · simp only [List.mem_singleton] at he; subst he; exact top _ _ (by decide)
+  · unfold planOptN at he; split at he
+    · cases he
+    · simp only [List.mem_singleton] at he; subst he; exact top _ _ (by decide)
+  · unfold planOptN at he; split at he
+    · cases he
+    · simp only [List.mem_singleton] at he; subst he; exact top _ _ (by decide)
+  · unfold planOptN at he; split at he
+    · cases he
+    · simp only [List.mem_singleton] at he; subst he; exact top _ _ (by decide)
+  · subst he; exact top _ _ (by decide)
+
+/-- a layer of a well-planned font: its directory, then plain files in it -/
+theorem planLayerN_shape (cfg : Cfg β) (t : APath) (l : ALayer)
+    (hd : namesOf (Path.parse l.dir) = [lname l])
+    (hg : ∀ e ∈ l.entries, namesOf (Path.parse e.file) = [gname e] ∧ ∃ g, e.glyph = some g ∧ g.encodable = true) :
+    ∃ ws, planLayerN cfg t l = NEff.mkdir (t ++ [lname l]) :: ws ∧
+      ∀ e ∈ ws, ∃ x b, e = NEff.write (t ++ [lname l, x]) b := by
+  unfold planLayerN
+  simp only [hd]
+  refine ⟨[NEff.write (t ++ [lname l] ++ [contentsFile.toList]) (cfg.render (.contents (l.entries.map fun e => (e.name, e.file))))] ++
+      (if l.info = 0 then [] else [NEff.write (t ++ [lname l] ++ [layerinfoFile.toList]) (cfg.render (.layerinfo l.info))]) ++
+      l.entries.flatMap (planGlyphN cfg (t ++ [lname l])), by simp, ?_⟩
+  intro e he
+  rcases List.mem_append.mp he with he | he
+  · rcases List.mem_append.mp he with he | he
+    · simp only [List.mem_singleton] at he
+      subst he; exact ⟨contentsFile.toList, cfg.render (.contents (l.entries.map fun e => (e.name, e.file))), by simp⟩
+    · by_cases hi : l.info = 0
+      · simp [hi] at he
+      · simp only [hi, if_false, List.mem_singleton] at he
+        subst he; exact ⟨layerinfoFile.toList, cfg.render (.layerinfo l.info), by simp⟩
+  · obtain ⟨en, hen, he⟩ := List.mem_flatMap.mp he
+    obtain ⟨hn, g, hgl, henc⟩ := hg en hen
+    unfold planGlyphN at he
+    simp only [hgl, henc, if_true, List.mem_singleton, hn] at he
+    subst he; exact ⟨gname en, cfg.render (.glif g.tok), by simp⟩
+
+theorem layers_as_dirs (cfg : Cfg β) (t : APath) : ∀ (ls : List ALayer),
+    (∀ l ∈ ls, namesOf (Path.parse l.dir) = [lname l]) →
+    (∀ l ∈ ls, ∀ e ∈ l.entries, namesOf (Path.parse e.file) = [gname e] ∧ ∃ g, e.glyph = some g ∧ g.encodable = true) →
+    ∃ Ls : List (Name × List (NEff β)), Ls.map (·.1) = ls.map lname ∧
+      ls.flatMap (planLayerN cfg t) = Ls.flatMap (fun p => NEff.mkdir (t ++ [p.1]) :: p.2) ∧
+      ∀ p ∈ Ls, ∀ e ∈ p.2, ∃ x b, e = NEff.write (t ++ [p.1, x]) b := by
+  intro ls
+  induction ls with
+  | nil => intro _ _; exact ⟨[], rfl, rfl, by intro p hp; cases hp⟩
+  | cons l rest ih =>
+    intro hd hg
+    obtain ⟨Ls, h1, h2, h3⟩ := ih (fun x hx => hd x (List.mem_cons_of_mem _ hx)) (fun x hx => hg x (List.mem_cons_of_mem _ hx))
+    obtain ⟨ws, hw1, hw2⟩ := planLayerN_shape cfg t l (hd l (List.mem_cons_self ..)) (hg l (List.mem_cons_self ..))
+    refine ⟨(lname l, ws) :: Ls, by simp [h1], by simp [List.flatMap_cons, hw1, h2], ?_⟩
+    intro p hp
+    rcases List.mem_cons.mp hp with rfl | hp'
+    · exact hw2
+    · exact h3 p hp'
+
+theorem data_as_effs (t : APath) : ∀ (d : List (Path.P × β)), (∀ kb ∈ d, namesOf kb.1 ≠ []) →
+    d.flatMap (planDataItemN t) = (d.map fun kb => (namesOf kb.1, kb.2)).flatMap (dataEffs t dataN) := by
+  intro d
+  induction d with
+  | nil => intro _; rfl
+  | cons kb rest ih =>
+    intro h
+    simp only [List.flatMap_cons, List.map_cons]
+    rw [ih (fun x hx => h x (List.mem_cons_of_mem _ hx))]
+    congr 1
+    unfold planDataItemN dataEffs dataN
+    have e : t ++ ["data".toList] ++ namesOf kb.1 = t ++ "data".toList :: namesOf kb.1 := by simp
+    rw [e, dropLast_app_cons t _ _ (h kb (List.mem_cons_self ..))]
+
+theorem images_as_dir (t : APath) (i : List (Path.P × β)) (h : ∀ kb ∈ i, ∃ g, namesOf kb.1 = [g]) (hne : i ≠ []) :
+    ∃ ws, planImagesN t i = NEff.mkdir (t ++ [imagesN']) :: ws ∧
+      ∀ e ∈ ws, ∃ x b, e = NEff.write (t ++ [imagesN', x]) b := by
+  unfold planImagesN
+  have : i.isEmpty = false := by cases i <;> simp_all
+  simp only [this, Bool.false_eq_true, if_false]
+  refine ⟨_, rfl, ?_⟩
+  intro e he
+  simp only [List.mem_map] at he
+  obtain ⟨kb, hkb, rfl⟩ := he
+  obtain ⟨g, hg⟩ := h kb hkb
+  exact ⟨g, kb.2, by simp [hg, imagesN']⟩
+
+end FontSave
+
+namespace FontSave
+open AbsFS
+open Path (Comp)
+
+variable {β : Type}
+
+theorem len_ne_of_app {t : APath} {x : List Name} (h : t ++ x = t) : x = [] := by
+  have := congrArg List.length h
+  simp only [List.length_append] at this
+  exact List.length_eq_zero_iff.mp (by omega)
+
+/-- **the plan of a well-planned font finds every precondition**, from kinds in which the target exists as an empty
+    directory and every proper ancestor is a directory -/
+theorem planRestN_runs (cfg : Cfg β) (f : AFont β) (d i : List (Path.P × β)) (t : APath) (hw : WellPlanned f)
+    (hd : d.map (·.1) = f.data.items.map (·.1)) (hi : i.map (·.1) = f.images.items.map (·.1))
+    (K0 : KRel) (H1 : ∀ m, m <+: t → m ≠ [] → K0 m false) (H2 : ∀ q k, K0 q k → t <+: q → q = t)
+    (H3 : ∀ m, m <+: t → ¬ K0 m true) : Runs K0 (planRestN cfg f d i t) := by
+  have hdata_ne : dataN ∉ topNames := by decide
+  have himg_ne : imagesN' ∉ topNames := by decide
+  have himg_data : imagesN' ≠ dataN := by decide
+  have hres_top : ∀ c, c ∈ topNames → c ∈ reservedNames := fun c h => List.mem_append_left _ h
+  have hres_data : dataN ∈ reservedNames := by decide
+  have hres_img : imagesN' ∈ reservedNames := by decide
+  -- shapes
+  have SA := headN_shape cfg f t hw
+  obtain ⟨Ls, hLn, hLeq, hLshape⟩ := layers_as_dirs cfg t f.layers (fun l hl => (hw.layerDir l hl).1) hw.glyphs
+  have hdne : ∀ kb ∈ d, namesOf kb.1 ≠ [] := by
+    intro kb hkb
+    apply hw.dataKeys.2
+    rw [← hd]; exact List.mem_map.mpr ⟨kb, hkb, rfl⟩
+  have hDeq := data_as_effs t d hdne
+  -- names of the layer directories
+  have hLres : ∀ p ∈ Ls, p.1 ∉ reservedNames := by
+    intro p hp
+    have : p.1 ∈ Ls.map (·.1) := List.mem_map.mpr ⟨p, hp, rfl⟩
+    rw [hLn] at this
+    obtain ⟨l, hl, hl2⟩ := List.mem_map.mp this
+    rw [← hl2]; exact (hw.layerDir l hl).2
+  have hLpw : Ls.Pairwise (fun a b => a.1 ≠ b.1) := by
+    have h1 : (Ls.map (·.1)).Pairwise (· ≠ ·) := by
+      rw [hLn]; exact (List.pairwise_map).mpr hw.layersDistinct
+    exact (List.pairwise_map).mp h1
+  -- what the kinds look like after each segment
+  have KA : ∀ q k, addAll K0 (headN cfg f t) q k → K0 q k ∨ (k = true ∧ ∃ c ∈ topNames, q = t ++ [c]) := by
+    rintro q k (h | ⟨e, he, hp⟩)
+    · exact Or.inl h
+    · obtain ⟨c, b, rfl, hc⟩ := SA e he
+      exact Or.inr ⟨hp.2, c, hc, hp.1⟩
+  have KL : ∀ (K : KRel) q k, addAll K (Ls.flatMap fun p => NEff.mkdir (t ++ [p.1]) :: p.2) q k →
+      K q k ∨ ∃ p ∈ Ls, (q = t ++ [p.1] ∧ k = false) ∨ (∃ x, q = t ++ [p.1, x] ∧ k = true) := by
+    rintro K q k (h | ⟨e, he, hp⟩)
+    · exact Or.inl h
+    · obtain ⟨p, hpm, hep⟩ := List.mem_flatMap.mp he
+      rcases List.mem_cons.mp hep with rfl | hep'
+      · exact Or.inr ⟨p, hpm, Or.inl ⟨hp.1, hp.2⟩⟩
+      · obtain ⟨x, b, rfl⟩ := hLshape p hpm e hep'
+        exact Or.inr ⟨p, hpm, Or.inr ⟨x, hp.1, hp.2⟩⟩
+  have KD : ∀ (K : KRel) q k, addAll K ((d.map fun kb => (namesOf kb.1, kb.2)).flatMap (dataEffs t dataN)) q k →
+      K q k ∨ ∃ ks : List Name, (q <+: t ++ dataN :: ks.dropLast ∧ k = false) ∨ (q = t ++ dataN :: ks ∧ k = true) := by
+    rintro K q k (h | ⟨e, he, hp⟩)
+    · exact Or.inl h
+    · obtain ⟨w, _, hew⟩ := List.mem_flatMap.mp he
+      unfold dataEffs at hew
+      simp only [List.mem_cons, List.not_mem_nil, or_false] at hew
+      rcases hew with rfl | rfl
+      · exact Or.inr ⟨w.1, Or.inl ⟨hp.1, hp.2⟩⟩
+      · exact Or.inr ⟨w.1, Or.inr ⟨hp.1, hp.2⟩⟩
+  -- K0 has nothing below t
+  have K0below : ∀ x k, x ≠ [] → ¬ K0 (t ++ x) k := by
+    intro x k hx h
+    exact hx (len_ne_of_app (H2 _ k h (List.prefix_append _ _)))
+  rw [planRestN_split, hLeq, hDeq]
+  apply runs_append
+  apply runs_append
+  apply runs_append
+  · -- top-level files
+    exact runs_top t K0 _ (fun e he => by obtain ⟨c, b, h, _⟩ := SA e he; exact ⟨c, b, h⟩) H1
+      (fun c h => K0below [c] false (by simp) h)
+  · -- layers
+    apply runs_dirs t Ls _ hLshape hLpw (fun m a b => addAll_mono (H1 m a b))
+    · intro p hp k h
+      rcases KA _ _ h with h | ⟨_, c, hc, hq⟩
+      · exact K0below [p.1] k (by simp) h
+      · have := (app_cons_eq (x := []) (y := []) hq).1
+        exact hLres p hp (this ▸ hres_top c hc)
+    · intro p hp x h
+      rcases KA _ _ h with h | ⟨hk, _⟩
+      · exact K0below [p.1, x] false (by simp) h
+      · cases hk
+  · -- data
+    apply runs_data t dataN
+    · have := hw.dataKeys.1
+      rw [← hd] at this
+      have e : (d.map fun kb => (namesOf kb.1, kb.2)).map (·.1) = (d.map (·.1)).map namesOf := by simp
+      exact (List.pairwise_map).mp (by rw [e]; exact this)
+    · intro w hw'
+      obtain ⟨kb, hkb, rfl⟩ := List.mem_map.mp hw'
+      exact hdne kb hkb
+    · intro w _
+      constructor
+      · intro m hm hmne h
+        have h := (addAll_append _ _ _ _ _).mp h
+        rcases KL _ _ _ h with h | ⟨p, hp, ⟨_, hk⟩ | ⟨x, hq, _⟩⟩
+        · rcases KA _ _ h with h | ⟨_, c, hc, hq⟩
+          · rcases List.prefix_or_prefix_of_prefix hm (List.prefix_append t _) with h4 | h4
+            · exact H3 m h4 h
+            · have := H2 m true h h4
+              exact H3 m (this ▸ List.prefix_refl _) h
+          · rw [hq] at hm
+            have := (app_cons_prefix hm).1
+            exact hdata_ne (by rw [← this]; exact hc)
+        · cases hk
+        · rw [hq] at hm
+          have := (app_cons_prefix hm).1
+          exact hLres p hp (this ▸ hres_data)
+      · intro h
+        have h := (addAll_append _ _ _ _ _).mp h
+        rcases KL _ _ _ h with h | ⟨p, hp, ⟨hq, _⟩ | ⟨x, _, hk⟩⟩
+        · rcases KA _ _ h with h | ⟨hk, _⟩
+          · exact K0below (dataN :: w.1) false (by simp) h
+          · cases hk
+        · have := (app_cons_eq hq).1
+          exact hLres p hp (this ▸ hres_data)
+        · cases hk
+  · -- images
+    by_cases hine : i = []
+    · subst hine; exact runs_nil _
+    · obtain ⟨ws, hIeq, hIshape⟩ := images_as_dir t i (by
+        intro kb hkb
+        apply hw.imageKeys
+        rw [← hi]; exact List.mem_map.mpr ⟨kb, hkb, rfl⟩) hine
+      rw [hIeq]
+      apply runs_dir t _ imagesN' ws hIshape (fun m a b => addAll_mono (H1 m a b))
+      · intro k h
+        have h := (addAll_append _ _ _ _ _).mp h
+        rcases KD _ _ _ h with h | ⟨ks, ⟨hq, _⟩ | ⟨hq, _⟩⟩
+        · have h := (addAll_append _ _ _ _ _).mp h
+          rcases KL _ _ _ h with h | ⟨p, hp, ⟨hq, _⟩ | ⟨x, hq, _⟩⟩
+          · rcases KA _ _ h with h | ⟨_, c, hc, hq⟩
+            · exact K0below [imagesN'] k (by simp) h
+            · have := (app_cons_eq (x := []) (y := []) hq).1
+              exact himg_ne (by rw [this]; exact hc)
+          · have := (app_cons_eq (x := []) (y := []) hq).1
+            exact hLres p hp (this ▸ hres_img)
+          · have := congrArg List.length hq
+            simp at this
+        · exact himg_data (app_cons_prefix hq).1
+        · exact himg_data (app_cons_eq hq).1
+      · intro x h
+        have h := (addAll_append _ _ _ _ _).mp h
+        rcases KD _ _ _ h with h | ⟨ks, ⟨hq, _⟩ | ⟨_, hk⟩⟩
+        · have h := (addAll_append _ _ _ _ _).mp h
+          rcases KL _ _ _ h with h | ⟨p, hp, ⟨hq, _⟩ | ⟨y, _, hk⟩⟩
+          · rcases KA _ _ h with h | ⟨hk, _⟩
+            · exact K0below [imagesN', x] false (by simp) h
+            · cases hk
+          · have := congrArg List.length hq
+            simp at this
+          · cases hk
+        · exact himg_data (app_cons_prefix hq).1
+        · cases hk
+
+end FontSave
